@@ -56,6 +56,22 @@ extern std::string EXPORT_IMPORT_PREFIX;
 
 #define CLASS_PREFIX "Dtool_"
 
+/**
+ * Returns the given remaps ordered by function signature.  A set of remaps is
+ * ordered by pointer value, which may differ from one run to the next, so
+ * anything that is written out in the order of the set has to go through this
+ * to keep the generated code reproducible.
+ */
+static std::vector<FunctionRemap *>
+sort_remaps_by_signature(const std::set<FunctionRemap *> &remaps) {
+  std::vector<FunctionRemap *> result(remaps.begin(), remaps.end());
+  std::sort(result.begin(), result.end(),
+            [](const FunctionRemap *a, const FunctionRemap *b) {
+    return a->_function_signature < b->_function_signature;
+  });
+  return result;
+}
+
 // Name Remapper... Snagged from ffi py code....
 struct RenameSet {
   const char *_from;
@@ -2132,7 +2148,7 @@ write_module_class(ostream &out, Object *obj) {
       // functions with different names mapped to the same slot.
       string fname;
       if (def._remaps.size() > 0) {
-        const FunctionRemap *first_remap = *def._remaps.begin();
+        const FunctionRemap *first_remap = sort_remaps_by_signature(def._remaps).front();
         fname = first_remap->_cppfunc->get_simple_name();
       }
 
@@ -2873,8 +2889,7 @@ write_module_class(ostream &out, Object *obj) {
         {
           string fname = "static PyObject *" + def._wrapper_name + "(PyTypeObject *cls, PyObject *args, PyObject *kwds)\n";
 
-          std::vector<FunctionRemap *> remaps;
-          remaps.insert(remaps.end(), def._remaps.begin(), def._remaps.end());
+          std::vector<FunctionRemap *> remaps = sort_remaps_by_signature(def._remaps);
           string expected_params;
           write_function_for_name(out, obj, remaps, fname, expected_params, true, AT_keyword_args, RF_pyobject | RF_err_null);
         }
@@ -2884,8 +2899,7 @@ write_module_class(ostream &out, Object *obj) {
         // Nothing special about the wrapper function: just write it normally.
         string fname = "static PyObject *" + def._wrapper_name + "(PyObject *self, PyObject *args, PyObject *kwds)\n";
 
-        std::vector<FunctionRemap *> remaps;
-        remaps.insert(remaps.end(), def._remaps.begin(), def._remaps.end());
+        std::vector<FunctionRemap *> remaps = sort_remaps_by_signature(def._remaps);
         string expected_params;
         write_function_for_name(out, obj, remaps, fname, expected_params, true, AT_keyword_args, RF_pyobject | RF_err_null);
         break;
